@@ -75,6 +75,7 @@ DT_CULTURES_QUICK = ('en-us', 'zh-cn')
 # model construction dominates a cold process (about a minute for all cultures): the quick pool keeps to these
 CULTURES_QUICK = ('en-us', 'zh-cn', 'es-es', 'de-de', 'ja-jp', 'pt-br')
 NWU_CULTURES_QUICK = ('en-us', 'zh-cn', 'es-es')
+NWU_FNS = ('recognize_age', 'recognize_currency', 'recognize_dimension', 'recognize_temperature')
 
 
 def build_pool(ctx):
@@ -350,9 +351,16 @@ def correspond(ctx):
     rest = [i for i in range(n) if i not in set(frac)]
     sub = sorted(frac + r.sample(rest, min(nsub, len(rest))))
     subpool = [pool[i] for i in sub]
+    job_index = {}
     for k in cold_threads:
-        jobs['d_threads_%d_cold' % k] = {'pool': subpool, 'mode': 'threads', 'threads': k, 'seed': seed * 100 + k,
-                                         'copies': 1}
+        # many threads constructing many models at once spend minutes handing the GIL over: the 8+ thread cold runs
+        # keep to the cultures of the quick tier (about 25 models built concurrently)
+        idx = sub if k < 8 else [i for i in sub if pool[i][2].lower() in CULTURES_QUICK and
+                                 (not pool[i][0] in NWU_FNS or pool[i][2].lower() in NWU_CULTURES_QUICK) and
+                                 (pool[i][0] != 'recognize_datetime' or pool[i][2].lower() in DT_CULTURES_QUICK)]
+        job_index['d_threads_%d_cold' % k] = idx
+        jobs['d_threads_%d_cold' % k] = {'pool': [pool[i] for i in idx], 'mode': 'threads', 'threads': k,
+                                         'seed': seed * 100 + k, 'copies': 1}
     for i in single_idx:
         jobs['a1_single_%d' % i] = {'pool': [pool[i]], 'mode': 'seq'}
     results = {}
@@ -396,7 +404,7 @@ def correspond(ctx):
     evaluations = 0
     for name, res in results.items():
         for key, lst in res['answers'].items():
-            i = single_idx_of(name, key, sub)
+            i = single_idx_of(name, key, job_index.get(name, sub))
             for where, val in lst:
                 evaluations += 1
                 if val != canon[i]:
